@@ -21,17 +21,30 @@ Theorem C11_frame :
 Proof. exact merge_at_frame. Qed.
 Print Assumptions C11_frame.
 
-(* each matched node becomes what C05's per-target dispatch makes of its old
-   content and the right-hand document *)
+(* EVERY matched node becomes what C05's per-target dispatch makes of its old
+   content and the right-hand document: [t] is any of the targets, the others
+   (before and after it in the list) lie apart from it.  No guard: since the
+   repairs 6840572 and c8dbfd9 this holds for every right-hand document,
+   configuration and kind of target. *)
 Theorem C11_targets_merged :
-  forall lit cfg is_root t doc rhs out old,
+  forall lit cfg is_root pre t post doc rhs out old,
     is_none rhs = false ->
-    scalar_clobbers is_root [t] doc rhs = false ->
-    merge_at lit cfg is_root [t] doc rhs = Ok out ->
+    merge_at lit cfg is_root (pre ++ t :: post) doc rhs = Ok out ->
+    Forall (fun t' => leaves t' t) (pre ++ post) ->
     lookup doc t = Some old ->
     exists new, merge_target lit cfg is_root rhs old = Ok new /\ lookup out t = Some new.
-Proof. exact target_holds_dispatch. Qed.
+Proof. exact every_target_holds_dispatch. Qed.
 Print Assumptions C11_targets_merged.
+
+(* ... and that is the node C05's per-target insert RETURNS (at the root and
+   away from it alike), unless the target already is the right-hand document
+   (a created path) or a Scalar receives a Scalar (it takes the new value) *)
+Theorem C11_target_is_policy_merge :
+  forall lit cfg is_root rhs t,
+    same_obj t rhs = false -> (is_leaf rhs && is_leaf t = false) ->
+    merge_target lit cfg is_root rhs t = (do m <- insert_any lit cfg t rhs; Ok (ret m)).
+Proof. exact merge_target_is_returned. Qed.
+Print Assumptions C11_target_is_policy_merge.
 
 (* a path that matches nothing and cannot be created: merge error *)
 Theorem C11_unmatched_is_error :
@@ -62,16 +75,31 @@ Proof. left. intros e H. destruct e; simpl in *; try discriminate.
   unfold py_eq in *; simpl in *. destruct (String.eqb s "a") eqn:E; [|discriminate].
   apply String.eqb_eq in E; subst. reflexivity. Qed.
 
-(* KNOWN FINDING F-C11-1: away from the root the RETURNED merge result is
-   dropped: hashes=right at /a leaves /a as it was instead of replacing it. *)
-Theorem C11_right_at_path_refuted :
-  exists doc rhs out,
-    merge_at no_lit cfg_hr false [[RKey (PStr "a")]] doc rhs = Ok out /\
-    lookup out [RKey (PStr "a")] = lookup doc [RKey (PStr "a")] /\
-    rhs = mp 20 [(ky "c", lf 5 (PInt 2))].
-Proof.
-  exists (mp 10 [(ky "a", mp 11 [(ky "b", lf 3 (PInt 1))])]).
-  exists (mp 20 [(ky "c", lf 5 (PInt 2))]).
-  exists (mp 10 [(ky "a", mp 11 [(ky "b", lf 3 (PInt 1))])]).
-  split; [vm_compute; reflexivity|]. split; reflexivity.
-Qed.
+(* FORMER FINDING F-C11-1 (repaired by 6840572): away from the root the RETURNED
+   merge result reaches the document: hashes=right at /a replaces /a. *)
+Example C11_right_at_path :
+  merge_at no_lit cfg_hr false [[RKey (PStr "a")]]
+    (mp 10 [(ky "a", mp 11 [(ky "b", lf 3 (PInt 1))])])
+    (mp 20 [(ky "c", lf 5 (PInt 2))]) =
+  Ok (mp 10 [(ky "a", mp 20 [(ky "c", lf 5 (PInt 2))])]).
+Proof. vm_compute. reflexivity. Qed.
+
+(* ... and so does a list re-built by arrays=unique: {a: [1, 2]} + [2, 3] at /a gives {a: [1, 2, 3]} *)
+Definition sq (o : N) (els : list node) := NSeq (mkinfo o None true None) els.
+Definition cfg_au : mconfig := mkconfig false [] [] None (Some "unique"%string) None None None None None None None None.
+Example C11_unique_at_path :
+  exists i,
+  merge_at no_lit cfg_au false [[RKey (PStr "a")]]
+    (mp 10 [(ky "a", sq 11 [lf 3 (PInt 1); lf 4 (PInt 2)])])
+    (sq 20 [lf 4 (PInt 2); lf 5 (PInt 3)]) =
+  Ok (mp 10 [(ky "a", NSeq i [lf 3 (PInt 1); lf 4 (PInt 2); lf 5 (PInt 3)])]).
+Proof. eexists. vm_compute. reflexivity. Qed.
+
+(* FORMER FINDING F-C11-2 (repaired by c8dbfd9): {a: [1, 2], k: 5} + 7 at /*:
+   the Array receives the Scalar, the Scalar is replaced by it. *)
+Example C11_scalar_at_two_targets :
+  merge_at no_lit cfg0 false [[RKey (PStr "a")]; [RKey (PStr "k")]]
+    (mp 10 [(ky "a", sq 11 [lf 3 (PInt 1); lf 4 (PInt 2)]); (ky "k", lf 6 (PInt 5))])
+    (lf 7 (PInt 7)) =
+  Ok (mp 10 [(ky "a", sq 11 [lf 3 (PInt 1); lf 4 (PInt 2); lf 7 (PInt 7)]); (ky "k", lf 6 (PInt 7))]).
+Proof. vm_compute. reflexivity. Qed.
